@@ -336,3 +336,14 @@ Proof.
   destruct (addr mod 8 =? 0); cbn [negb unwrap bind andb]; [|reflexivity].
   destruct (len img mod 8 =? 0); reflexivity.
 Qed.
+
+(* sized constructors produce well-formed tag images (the hypothesis of C06 is what constructors deliver) *)
+Lemma sized_wf k args pad :
+  is_dst k = false ->
+  Forall2 (fun ow v => fval_ok (snd ow) v) (spec_mbi_fields (kind_typ k)) args ->
+  sd_size_of (kind_struct k) <= len pad ->
+  wf_img (ctor_sized k args pad).
+Proof.
+  intros Hd Hok Hp. destruct (c07_sized k args pad Hd Hok Hp) as (_ & Hs & Hl & _).
+  unfold wf_img. rewrite Hs, Hl. split; [|reflexivity]. destruct k; vm_compute; discriminate.
+Qed.
